@@ -146,6 +146,15 @@ type Span struct {
 	Name        string      `json:"name"`
 	Service     string      `json:"service"`
 	Tags        [][2]string `json:"tags"`
+	// Nums: numeric attributes (OTLP payloads only): an int64 or a double, which the response must render without loss
+	Nums []NumTag `json:"nums,omitempty"`
+}
+
+type NumTag struct {
+	Key   string  `json:"key"`
+	Int   int64   `json:"int"`
+	Dbl   float64 `json:"dbl"`
+	IsInt bool    `json:"is_int"`
 }
 
 func unhex(s string) string { b, _ := hex.DecodeString(s); return string(b) }
@@ -160,6 +169,13 @@ func (s Span) Payload() string {
 		}
 		for _, t := range s.Tags {
 			sp.Attributes = append(sp.Attributes, &common.KeyValue{Key: t[0], Value: &common.AnyValue{Value: &common.AnyValue_StringValue{StringValue: t[1]}}})
+		}
+		for _, n := range s.Nums {
+			if n.IsInt {
+				sp.Attributes = append(sp.Attributes, &common.KeyValue{Key: n.Key, Value: &common.AnyValue{Value: &common.AnyValue_IntValue{IntValue: n.Int}}})
+			} else {
+				sp.Attributes = append(sp.Attributes, &common.KeyValue{Key: n.Key, Value: &common.AnyValue{Value: &common.AnyValue_DoubleValue{DoubleValue: n.Dbl}}})
+			}
 		}
 		sp.Attributes = append(sp.Attributes, &common.KeyValue{Key: "service.name", Value: &common.AnyValue{Value: &common.AnyValue_StringValue{StringValue: s.Service}}})
 		b, _ := proto.Marshal(sp)
